@@ -101,6 +101,35 @@ CHECKS.append(
              "sorted positive-width rows and ranges, coordinates >= 0, distinct index labels, chromosome=None only on single-chromosome tables. Not claimed: the default summary "
              "of an integer column (the statement names none); iter_ranges_of(mode='trim') is judged as 'same values as outer'. Thorough: the <=2x<=3 over 0..6 scope is "
              "design-checked in full and replayed one VERIF_SEED-selected 1/8 shard at a time."})
+CHECKS.append(
+    {"id": "C04", "level": "model_checking",
+     "technique": "TLA+ spec (Fix.tla over Stats/Num: coordinate-keyed matching, reference filters, covariate-ordered rolling-median corrections with the edge density as an exact rational, class constants, centring, weights, pair invariances) + TLC exhaustive small scope replayed into cnvlib.fix.do_fix + TLC trace validation of seeded pairs of runs",
+     "design_ref": "DESIGN.md section 8 C04, 13",
+     "text": "TLC enumerates references of <=5 bins in <=2 classes with every subset of bad bins (each on its own filter threshold: one step beyond / exactly on / one step "
+             "inside), every subset of {gc,edge,rmask}, subset/empty-antitarget/missing/duplicate/row-order scenarios and reference column sets, checks the modelled fix.py "
+             "algorithm against the statement, and every enumerated input is executed by the real do_fix and judged by TLC; seeded tables of up to 120 bins on a dyadic grid "
+             "are run twice (depth x2^k, x arbitrary factor, rows permuted) and each pair is judged as one record: emitted coordinate set and order, refusals, log2 = corrected "
+             "sample - reference + one constant per class (exact), centring, weight range and pairwise monotonicity, invariance.",
+     "note": "Trusted: TLC, harness table construction/encoding, math.log2 for the rescaled twin. The statement does not fix the rolling-median window or the order of "
+             "corrections: the code's are specified (gc, edge, rmask; fraction max(0.01,n^-1/2), wing>=3). Rolling-median clause undecided per class on covariate ties and when "
+             "the code's 'most bins uncovered' rule skips corrections; 'centred' read over bins with depth > 0; zero-depth bins' own log2 and, for non-dyadic factors, weights "
+             "are not compared in the rescale pair; weight values not modelled. Premise: non-empty target, positive widths, grid inputs, target/antitarget coordinates disjoint. "
+             "Open finding F-C04-null-bins-depth-scale."})
+CHECKS.append(
+    {"id": "C18", "level": "model_checking",
+     "technique": "TLA+ spec (Variants.tla: VCF header/records, sample-selection decision procedure, rows, filters, het selection, exact-rational mirrored-median BAF, TumorBoost, purity rescale) + TLC exhaustive small scopes replayed through real VCF text files into skgenome.tabio.read / load_het_snps / baf_by_ranges / do_call + TLC trace validation of seeded synthetic VCFs",
+     "design_ref": "DESIGN.md section 8 C18, 13",
+     "text": "TLC enumerates headers of 1..3 samples x PEDIGREE {none, one pair, two pairs} x sample_id/normal_id {none, each name, absent name, each index, index past the end}, "
+             "every small GT/AD/DP/FORMAT combination of one record, SOMATIC/FILTER flags x skip_* x min_depth, tumour/normal pairs through read_vcf and load_het_snps "
+             "(zygosity_freq, tumor_boost), and <= 3 variants under range tables for baf_by_ranges / do_call / mirrored_baf / tumor_boost. The modelled code (A-layer) is "
+             "checked against the statement (P-layer); every state is written as a real VCF file and read by the real code, whose table, chosen pair and BAF values TLC judges "
+             "(exact rationals from counts and depths, 1e-9). Seeded synthetic biallelic VCFs up to 500 records x selectors x filters x range tables, and the baf column of "
+             "do_call and do_segmentation('none'), are judged the same way.",
+     "note": "Trusted: TLC, pysam/htslib parsing of the text the harness writes, the table encoder (its record-index witness is verified by the spec), fixed-point encoding of "
+             "floats, capture of the chosen pair by wrapping _choose_samples. P leaves free what the statement leaves open (missing-field values, which depth min_depth uses "
+             "for a pair, records straddling a range edge, the side at an exact tie, end of explicit alleles). Not claimed: multi-allelic records, sites-only VCFs, GATK/MuTect "
+             "header pairing, het_frac_by_ranges, cn1/cn2 (C02), allele-frequency HMM re-segmentation. Premises: tables sorted, depths <= 1000 (<= 40 with tumor_boost), ranges "
+             "grouped by chromosome. Open finding F-C18-no-het-falls-back-to-all."})
 
 _ALL = [f"C{n:02d}" for n in range(1, 21)]
 _claimed = {c["id"] for c in CHECKS}
